@@ -922,7 +922,8 @@ def run(ctx):
          "batches": [[[0.25, 0.25, 0.25], [0.1, 0.2, 0.30000000000000004]]]},
         {"wc": False, "n": 2, "m": 1, "tols": [0.1, 0.1], "objs": q1, "batches": [[[0.5, 0.5]], []]},                         # IndexError in run()
         {"wc": False, "n": 1, "m": 2, "tols": [0.1], "objs": q2, "batches": [[[1e300]], [[-1e300]]]},
-        # an evaluated design handed to evaluate() again (outside the theorems): second time appended, third time overwritten
+        # an evaluated design handed to evaluate() again (C14_worstcase_cost_shape / _processing_and_calls, model wc_hist): the
+        # sensitivity entry is overwritten from the second time on (F11 repaired; before the fix it was appended the second time)
         {"wc": True, "n": 1, "m": 1, "tols": [0.25], "objs": q1, "batches": [[[0.5]], [], [], []], "again": [[], [0], [0], [0]]},
         {"wc": True, "n": 2, "m": 2, "tols": [0.25, 0.5], "objs": q2, "batches": [[[0.1, 0.2], [0.3, 0.4]], [[0.5, 0.6]], [[0.0, 0.0]]],
          "again": [[], [1], [0, 1, 2]]},
@@ -1009,7 +1010,7 @@ def run(ctx):
     logging.disable(logging.NOTSET)
 
     ctx.coq_compare("c14", HEADER, "c14_case", "c14_obs", "c14_run", "c14_obs_eqb", cases, expected, meta, shard=ctx.pick(40, 300))
-    ctx.rule = ("whole evaluator lives: 1..4 batches of 1..4 fresh designs (vectors from a grid of %d values so that designs, neighbours and "
+    ctx.rule = ("whole evaluator lives: 1..4 (in 7%% of the generated cases 5, 6 or 8) batches of 1..4 fresh designs (vectors from a grid of %d values so that designs, neighbours and "
                 "batches share vectors), 1..3 parameters with tolerances from %r, 1..2 user objectives from the families %r with grid "
                 "coefficients, pushed through Algorithm.evaluate with EvaluatorType.WORST_CASE / GRADIENT, plus short EpsMOEA / NSGAII runs "
                 "with either evaluator (generations = batches) and a hand-written corpus; design vectors given as lists of float / of int only / "
@@ -1019,7 +1020,8 @@ def run(ctx):
                 "an inequality constraint, colliding ids; scripted transient failures of the objective (40%% of the direct cases, 60%% of the "
                 "algorithm runs, 13 directed corpus cases: 1..3 runs of 1..4 consecutive global call numbers, on designs and on neighbours, with "
                 "resubmission / pre-evaluation / numpy vectors as well); a case is non-trivial when it has at least two "
-                "batches and did not raise; distinct = distinct (mode, evaluator, tolerances, objectives, batches)"
+                "batches and did not raise; distinct = distinct (mode, evaluator, n, m, tolerances, objectives, batches, resubmitted designs, "
+                "pre-evaluated designs, failed call numbers)"
                 % (len(VGRID), TOLS, sorted(set(FAMILIES))))
     hist["f13_reports"] = dict(known_seen)
     ctx.extra.update({"input_distribution": hist})
